@@ -348,8 +348,44 @@ def r124(ctx, fx):
         ctx.finding(rid, k, "join_chunks can suppress a non-blank line (line %s): comments or code on it would be lost" % bad, jc.where)
 
 
+CONTENT_PREDICATES = ("ends_with", "starts_with", "contains", "find", "rfind", "matches", "trim", "trim_end", "trim_start", "trim_end_matches", "trim_start_matches",
+                      "strip_suffix", "strip_prefix", "chars", "bytes", "as_bytes", "split", "rsplit", "lines", "last", "char_indices", "eq_ignore_ascii_case")
+
+
+def r125(ctx, fx):
+    rid = ctx.rule("R12.5", "join_chunks: a decision that drops a chunk (`ignore = true`, e.g. the line break after a label) depends on lengths and flags only, never "
+                   "on the text accumulated in the current line — that text can be a comment, whose content is arbitrary: a `//` comment that looks like a label "
+                   "would swallow the following line")
+    jc = fx.fn("mos_core::formatting::join_chunks")
+    if jc is None:
+        ctx.fail_closed(rid, "formatting::join_chunks not found")
+        return
+    n = 0
+    for i in lib.hwalk(jc.hir["body"]):
+        if i.get("k") != "if":
+            continue
+        drops = [x for x in lib.hwalk(i["then"]) if x.get("k") == "assign" and lib.hpath(x["l"]) == "ignore" and lib.hlit(x["r"]) is True]
+        if not drops:
+            continue
+        # only the innermost `if` that guards the assignment
+        if any(j is not i and j.get("k") == "if" and any(x is drops[0] for x in lib.hwalk(j["then"])) for j in lib.hwalk(i["then"])):
+            continue
+        n += 1
+        key = "join_chunks|drop#%d" % n
+        preds = [x for x in lib.hwalk(i["cond"]) if x.get("k") == "mcall" and x.get("name") in CONTENT_PREDICATES and
+                 any(y.get("k") == "path" and lib.hpath(y) == "line" for y in lib.hwalk(x["recv"]))]
+        ctx.inst(rid, key, sample={"line": i.get("ln"), "condition": repr(lib.hdesc(i["cond"]))[:120]})
+        if preds:
+            ctx.finding(rid, key, "join_chunks drops a chunk when `line.%s(..)` holds: `line` may hold a comment, so a comment with that content makes the formatter "
+                        "join the next line into it (code becomes part of a `//` comment: different tokens, different bytes)" % preds[0]["name"],
+                        "%s:%s" % (jc.file, preds[0].get("ln")))
+    if n < 1:
+        ctx.fail_closed(rid, "no chunk-dropping decision (`ignore = true`) found in join_chunks")
+
+
 def run(ctx):
     fx = ctx.facts
+    r125(ctx, fx)
     r121_122(ctx, fx)
     r123(ctx, fx)
     r124(ctx, fx)
